@@ -887,8 +887,24 @@ PROFILES = {
     "removal": lambda rng: gen_mix(rng, weights=dict(life=5, trigger=5, register=2), body_weights=dict(life=3, trigger=4)),
 }
 
+def with_validity(text, rng):
+    """Environment dimension the crate must ignore: `valid 0|1` lines (between top-level operations) empty / fill the
+    match of the `Populated` param every scripted system carries. One scenario in four gets them."""
+    if text.startswith("mode syscall") or rng.random() >= 0.25: return text
+    out, on = [], True
+    for l in text.split("\n"):
+        if l.startswith("top ") and rng.random() < (0.3 if on else 0.2):
+            on = not on
+            out.append("valid %d" % (1 if on else 0))
+        out.append(l)
+    return "\n".join(out)
+
+def generate(prof, seed):
+    text = PROFILES[prof](random.Random(seed))
+    return with_validity(text, random.Random(seed ^ 0x5eed))
+
 if __name__ == "__main__":
     import sys
     seed = int(sys.argv[1]) if len(sys.argv) > 1 else 0
     prof = sys.argv[2] if len(sys.argv) > 2 else "mix"
-    sys.stdout.write(PROFILES[prof](random.Random(seed)))
+    sys.stdout.write(generate(prof, seed))
